@@ -29,12 +29,20 @@
     program, or (backward) is a stable model of the program and falsifies a universal/backward
     `spec` formula. (A backward-annotated *assumption* of the specification is dropped by the
     code - visible in the statement.)
-  Not proved: placeholders, proof outlines.
+  * `external_refutes_programs_with_placeholders`, `external_refutes_specification_with_placeholders`:
+    both statements for user guides that declare placeholders (`input: n -> integer.`). A program with
+    placeholders is read as the reference semantics prescribes - every placeholder is replaced by the
+    precomputed term the interpretation assigns to it (`Program.substSym (phNu m J.fc)`: the value of
+    the function constant `n$i`, `n$g`, `n$s` that `replace_placeholders` substitutes). Rests on
+    `tauStar_substSym`, `completion_substSym` (tau* and completion commute with the substitution of
+    closed terms for symbolic constants) and `sat_substSym_congr` (only the values matter).
+  Not proved: proof outlines inside C02 (their sequencing and soundness is C13).
 -/
 import AnthemModel.Model.External
 import AnthemModel.Props.C19
 import AnthemModel.Proofs.ExternalSem
 import AnthemModel.Proofs.ExternalSemSpec
+import AnthemModel.Proofs.ExternalSemPh
 import AnthemModel.Proofs.PrivateUnique
 namespace Anthem.C02
 open Asp
@@ -87,6 +95,66 @@ theorem external_refutes_specification (t : ExternalTask) (S : Specification) (h
                   (renamedInterp (t.specPrivate.filter (· ∈ t.progPrivate)) J.pred)) J.fc ∧
               ∃ a ∈ S, lBwdConc a = true ∧ ¬ sat J a.formula ρ)))) :=
   Anthem.external_refutes_spec t S hspec hph hpo hbyp fuel ps h
+
+/-- **C02 with placeholders, program against program** (no proof outline, tightness not bypassed):
+    `external_refutes_programs` for user guides that declare placeholders of any sort. `t.phMap` is the
+    placeholder map, `phNu t.phMap J.fc s` the precomputed term `J` assigns to the symbolic constant `s`
+    (`s` itself when it is no placeholder). -/
+theorem external_refutes_programs_with_placeholders (t : ExternalTask) (PL : Program)
+    (hspec : t.specification = .inl PL) (hpo : t.proofOutline = []) (hbyp : t.bypassTightness = false)
+    (fuel : Nat) (ps : List Problem) (h : externalProblems t fuel = .ok ps) :
+    ∃ ΓL ΓR, theoryTranslate t t.phMap fuel PL = .ok ΓL ∧ theoryTranslate t t.phMap fuel t.program = .ok ΓR ∧
+      (NoSymbolConflictGen (assembledGen t (leftSide t ΓL) t.ugAss ΓR) → ∀ (J : Interp) (ρ : Asg),
+        ((∃ P ∈ ps, Refutes J ρ P) ↔
+          (∀ a ∈ t.userGuide.formulas, a.role = .assumption → sat J (a.formula.replacePlaceholders t.phMap) ρ) ∧
+          (((t.direction = .universal ∨ t.direction = .forward) ∧
+              Stable (PL.substSym (phNu t.phMap J.fc)) t.userGuide.inputs
+                (restrictTo (ext PL.preds t.userGuide.inputs) J.pred) J.fc ∧
+              (∀ a ∈ rightSide t ΓR, a.role = .assumption → sat J a.formula ρ) ∧
+              ¬ Stable (t.program.substSym (phNu t.phMap J.fc)) t.userGuide.inputs
+                (restrictTo (ext t.program.preds t.userGuide.inputs)
+                  (renamedInterp (t.specPrivate.filter (· ∈ t.progPrivate)) J.pred)) J.fc) ∨
+           ((t.direction = .universal ∨ t.direction = .backward) ∧
+              Stable (t.program.substSym (phNu t.phMap J.fc)) t.userGuide.inputs
+                (restrictTo (ext t.program.preds t.userGuide.inputs)
+                  (renamedInterp (t.specPrivate.filter (· ∈ t.progPrivate)) J.pred)) J.fc ∧
+              (∀ a ∈ leftSide t ΓL, a.role = .assumption → sat J a.formula ρ) ∧
+              ¬ Stable (PL.substSym (phNu t.phMap J.fc)) t.userGuide.inputs
+                (restrictTo (ext PL.preds t.userGuide.inputs) J.pred) J.fc)))) :=
+  Anthem.external_refutes_programs_ph t PL hspec hpo hbyp fuel ps h
+
+/-- **C02 with placeholders, specification against program.** -/
+theorem external_refutes_specification_with_placeholders (t : ExternalTask) (S : Specification)
+    (hspec : t.specification = .inr S) (hpo : t.proofOutline = []) (hbyp : t.bypassTightness = false)
+    (fuel : Nat) (ps : List Problem) (h : externalProblems t fuel = .ok ps) :
+    ∃ ΓR, theoryTranslate t t.phMap fuel t.program = .ok ΓR ∧
+      (NoSymbolConflictGen (assembledGen t (S.map (SAnn.replacePlaceholders t.phMap)) t.ugAss ΓR) →
+        ∀ (J : Interp) (ρ : Asg),
+        ((∃ P ∈ ps, Refutes J ρ P) ↔
+          (∀ a ∈ t.userGuide.formulas, a.role = .assumption → sat J (a.formula.replacePlaceholders t.phMap) ρ) ∧
+          (∀ a ∈ S, lStable a = true → sat J (a.formula.replacePlaceholders t.phMap) ρ) ∧
+          (∀ a ∈ rightSide t ΓR, a.role = .assumption → sat J a.formula ρ) ∧
+          (((t.direction = .universal ∨ t.direction = .forward) ∧
+              (∀ a ∈ S, lFwdPrem a = true → sat J (a.formula.replacePlaceholders t.phMap) ρ) ∧
+              ¬ Stable (t.program.substSym (phNu t.phMap J.fc)) t.userGuide.inputs
+                (restrictTo (ext t.program.preds t.userGuide.inputs)
+                  (renamedInterp (t.specPrivate.filter (· ∈ t.progPrivate)) J.pred)) J.fc) ∨
+           ((t.direction = .universal ∨ t.direction = .backward) ∧
+              Stable (t.program.substSym (phNu t.phMap J.fc)) t.userGuide.inputs
+                (restrictTo (ext t.program.preds t.userGuide.inputs)
+                  (renamedInterp (t.specPrivate.filter (· ∈ t.progPrivate)) J.pred)) J.fc ∧
+              ∃ a ∈ S, lBwdConc a = true ∧ ¬ sat J (a.formula.replacePlaceholders t.phMap) ρ)))) :=
+  Anthem.external_refutes_spec_ph t S hspec hpo hbyp fuel ps h
+
+/-- what the placeholder reading does: an integer placeholder `n` stands for the numeral that is the
+    value of `n$i`, a symbol that is no placeholder stands for itself; tau* of the program with the
+    values substituted is tau* of the program with the matching closed terms substituted -/
+theorem placeholder_reading (fc : FcI) :
+    phNu [("n", .integer)] fc "n" = .num (fc "n" .integer).toInt ∧ phNu [("n", .integer)] fc "a" = .sym "a" :=
+  ⟨rfl, rfl⟩
+
+theorem tau_star_commutes_with_placeholder_values (ν : String → Pre) (p : Program) :
+    tauStar (p.substSym ν) = (tauStar p).map (Formula.substSym (thetaOf ν)) := tauStar_substSym ν p
 
 /-- which annotated formulas of a specification play which part (read off `assemble`) -/
 theorem specification_roles (a : SAnn) :
@@ -240,5 +308,20 @@ example : ∀ ΓR, theoryTranslate exampleSpecTask [] 8 exampleSpecTask.program 
   subst hR
   unfold NoSymbolConflictSpec
   decide
+
+/-- Non-vacuity of the placeholder theorems: `input: n -> integer. input: q/1. output: p/1.` with
+    `p(X) :- q(X), X < n.` against `p(X) :- q(X), not X >= n.` is accepted and yields two problems. -/
+def examplePlaceholderTask : ExternalTask :=
+  { specification := .inl [⟨.basic ⟨"p", [.var "X"]⟩, [.lit ⟨.pos, ⟨"q", [.var "X"]⟩⟩, .cmp .lt (.var "X") (.pre (.sym "n"))]⟩]
+    program := [⟨.basic ⟨"p", [.var "X"]⟩, [.lit ⟨.pos, ⟨"q", [.var "X"]⟩⟩, .cmp .lt (.var "X") (.pre (.sym "n")),
+      .lit ⟨.negneg, ⟨"q", [.var "X"]⟩⟩]⟩]
+    userGuide := [.placeholder "n" .integer, .input ⟨"q", 1⟩, .output ⟨"p", 1⟩]
+    proofOutline := []
+    decomposition := .sequential, direction := .universal, rep := .tauStar
+    bypassTightness := false, simplify := false, breakEq := false }
+
+example : (match externalProblems examplePlaceholderTask 8 with | .ok ps => ps.length | _ => 0) = 2 := by decide
+
+example : examplePlaceholderTask.phMap = [("n", .integer)] := by decide
 
 end Anthem.C02
